@@ -160,7 +160,7 @@ def write_evidence(ctx, ev):
 def run_check(prop, tier, seed, replay_path=None):
     import logging
     import warnings
-    logging.disable(logging.WARNING)
+    logging.disable(logging.ERROR)
     warnings.simplefilter("ignore")
     ctx = Ctx(prop, tier, seed)
     mod = importlib.import_module("props.%s" % prop.lower())
